@@ -292,22 +292,42 @@ fn go<V: Render>(c: &Sexp, mk: impl Fn(i64, i64) -> V + Copy) -> Sexp {
     let mut out = vec![];
     let mut before = parent.child_ids();
     let mut state = view(lists[0].clone()).build();
-    state.mount(&parent, marker.as_ref());
-    out.push(Lst(vec![children(&parent, &before), Lst(std::mem::take(&mut *log.borrow_mut()))]));
+    // steps (-2) / (-3): the list is unmounted (a parent hides it and keeps the state) / mounted again; a step
+    // (-4) right after the first list: the list is NOT mounted after build (updates before the first mount).
+    // While the list is hidden the `mount` calls of its rows (which cannot reach the DOM) are not logged.
+    let mut hidden = lists.get(1).map(|l| l == &[-4]).unwrap_or(false);
+    if !hidden {
+        state.mount(&parent, marker.as_ref());
+    }
+    let take_log = |hidden: bool| {
+        let l = std::mem::take(&mut *log.borrow_mut());
+        Lst(if hidden { l.into_iter().filter(|e| e.at(0).num() != 1).collect() } else { l })
+    };
+    out.push(Lst(vec![children(&parent, &before), take_log(hidden)]));
     for l in &lists[1..] {
         before = parent.child_ids();
+        let mut drop_mounts = hidden;
         if l == &[-1] {
             // hidden and shown again
             state.unmount();
             state.mount(&parent, marker.as_ref());
+        } else if l == &[-2] {
+            state.unmount();
+            hidden = true;
+            drop_mounts = false;
+        } else if l == &[-3] {
+            state.mount(&parent, marker.as_ref());
+            hidden = false;
+            drop_mounts = false;
+        } else if l == &[-4] {
         } else {
             view(l.clone()).rebuild(&mut state);
         }
-        out.push(Lst(vec![children(&parent, &before), Lst(std::mem::take(&mut *log.borrow_mut()))]));
+        out.push(Lst(vec![children(&parent, &before), take_log(drop_mounts)]));
     }
     before = parent.child_ids();
     state.unmount();
-    out.push(Lst(vec![children(&parent, &before), Lst(std::mem::take(&mut *log.borrow_mut()))]));
+    out.push(Lst(vec![children(&parent, &before), take_log(false)]));
     Lst(out)
 }
 
